@@ -25,8 +25,26 @@ def gen_evs(r, n, p, pint):
     return evs
 
 
+# the process the manager itself runs in (the statements do not depend on it).  No name starts with "worker":
+# that is what the manager's own children are called.
+CHILD_NAMES = ["Process-1", "Process-7", "supervisor-child", "SpawnProcess-3", "ForkPoolWorker-2",
+               "taskiq-worker-manager", "Worker-host"]
+RENAMED_MAIN = ["taskiq-manager", "my worker manager", "Worker", "main"]
+
+
+def gen_env(r):
+    k = r.random()
+    if k < .25:
+        return dict(name=r.choice(CHILD_NAMES), child=True)     # started by multiprocessing (a supervisor's Process)
+    if k < .32:
+        return dict(name=r.choice(RENAMED_MAIN), child=False)   # top-level process that renamed itself
+    return None                                                 # MainProcess
+
+
 def gen_case(r, max_ticks=40, mfs=MFS_QUICK, max_n=4):
     n = r.randint(1, max_n)
+    if r.random() < .06:
+        n = 5
     mf = r.choice(mfs)
     T = r.choice([r.randint(1, 6), r.randint(4, 15), r.randint(10, max_ticks)])
     rate = r.choice([.08, .3, .3, .55, .7])
@@ -46,10 +64,33 @@ def gen_case(r, max_ticks=40, mfs=MFS_QUICK, max_n=4):
                 k = r.randrange(n)
                 t["alive"] += [[] for _ in range(k + 1 - len(t["alive"]))]
                 t["alive"][k] = t["alive"][k] + evs
+    if r.random() < .07:
+        # request burst: several reload (and maybe a shutdown) requests reach the manager within ONE tick - a noisy
+        # file watcher, repeated SIGHUPs.  Queue occupancy grows with (requests x workers): crosses any bound that
+        # was sized from the worker count.
+        t = r.choice(ticks)
+        for _ in range(r.choice([2, 2, 3, 4, 6])):
+            ev = [r.choice(["hup", "hup", "file"])]
+            k = r.random()
+            if k < .6:
+                t["sleep"].insert(r.randint(0, len(t["sleep"])), ev)
+            else:
+                j = r.choice([0, 0, 1, 2])
+                t["drain"] += [[] for _ in range(j + 1 - len(t["drain"]))]
+                t["drain"][j] = t["drain"][j] + [ev]
+        if r.random() < .25:
+            t["sleep"].append([r.choice(["int", "term"])])
     c = dict(n=n, mf=mf, p0=r.choice([1, 100, 100, 1000, r.randint(1, 2000)]), ticks=ticks)
     if r.random() < .35:
         c["slow"] = r.choice([2, 2, 3])     # workers that need an unbounded join() to exit after terminate()
+    env = gen_env(r)
+    if env:
+        c["env"] = env
     return c
+
+
+def reload_requests(t):
+    return sum(1 for evs in [t["sleep"]] + t["drain"] + t["alive"] for e in evs if e[0] in ("hup", "file"))
 
 
 def has_mid(c):
@@ -235,6 +276,12 @@ def oracle_c17(c, o):
             joined.add(e[1])
     if o["result"][0] == "join-blocks":
         bad.append(("join() on a live process that was never terminated (would block forever)", dict(result=o["result"])))
+    if o["result"][0] in ("put-blocks", "get-blocks"):
+        # the manager's thread is the only consumer of its action queue: a blocking put() on a full queue (or a
+        # blocking get() on an empty one) made by that thread never returns.  It is neither shutting down nor out of
+        # budget, and from here on no worker that dies (or is waiting in the queue) is ever replaced.
+        bad.append(("the manager blocked forever on its own action queue: supervision stopped, no worker that dies "
+                    "from now on is replaced", dict(result=o["result"], workers=o["final"], pending=o["queue"])))
     # (c) replacement within two ticks
     K = len(o["ticks"]) - 1                      # executed (possibly partially, if it exited) ticks
     exited = o["result"][0] != "running"
@@ -258,7 +305,12 @@ def oracle_c18(c, o):
     no process other than its own current workers, starts no further process, returns the success status'"""
     bad = []
     n, mf, res = c["n"], c["mf"], o["result"]
-    if res[0] not in ("running", "exit"):
+    if res[0] in ("put-blocks", "get-blocks"):
+        # only the manager's own thread consumes the action queue: it will never take another action, so neither the
+        # failure exit nor a reload-all nor a SIGINT/SIGTERM shutdown can happen any more
+        bad.append(("the manager blocked forever on its own action queue: no further failure is handled, no reload-all "
+                    "performed, no shutdown request honoured", dict(result=res, pending=o["queue"])))
+    elif res[0] not in ("running", "exit"):
         bad.append(("start() raised or returned something other than None / -1", dict(result=res)))
     # handled unexpected exits = ReloadOne(is_reload_all=False) actions taken from the queue
     tr = flat(o)
@@ -333,6 +385,21 @@ def count_case(rep, c, o):
     rep.count("outcome:" + "-".join(map(str, o["result"][:2] if o["result"][0] == "exit" else o["result"][:1])))
     if has_mid(c):
         rep.count("with_mid_tick_events")
+    env = c.get("env")
+    rep.count("manager_process:" + ("MainProcess" if not env else "multiprocessing-child" if env.get("child")
+                                    else "renamed-main"))
+    if env and any(e[0] in ("hup", "int", "term") for t in c["ticks"] for evs in [t["sleep"]] + t["drain"] + t["alive"]
+                   for e in evs):
+        rep.count("manager_process:non-main-and-signalled")
+    burst = max([reload_requests(t) for t in c["ticks"]] or [0])
+    if burst >= 2:
+        rep.count("reload_requests_in_one_tick:%s" % (burst if burst < 4 else "4+"))
+        if c["n"] >= 3:
+            rep.count("reload_burst_with_3+_workers")
+    for m in o.get("qmax", []):
+        rep.count("action_queue:" + ("unbounded" if not m else "bounded"))
+    if o.get("full_puts"):
+        rep.count("action_queue:put-on-full-queue")
     reloaded = None
     for effs in o["ticks"][1:]:
         seen = set()
@@ -433,7 +500,7 @@ def replay(ctx, pid, path):
     rec = json.load(open(path))
     c = rec.get("case", rec)
     o = C.run_driver(ctx, "pm_driver", [c], nproc=1)[0]
-    print("case:", json.dumps({k: c[k] for k in ("n", "mf", "p0", "slow", "ticks") if k in c}))
+    print("case:", json.dumps({k: c[k] for k in ("n", "mf", "p0", "slow", "env", "ticks") if k in c}))
     if "_crash" in o:
         print("driver crashed:", o["_crash"])
         return 1
